@@ -1,5 +1,6 @@
 // C06 - a suspend point never loses or duplicates a ready coroutine
 #include "common.h"
+#include <cocls/self.h>
 
 namespace c06 {
 
@@ -33,14 +34,14 @@ inline Prog decode(hz::Reader &r) {
     p.coro_mode = r.flag();
     unsigned n = 0;
     while (r.more() && n < 64) {
-        Op o; o.code = (uint8_t)r.mod(12); o.a = r.u8(); o.b = r.u8(); o.c = r.u8();
+        Op o; o.code = (uint8_t)r.mod(13); o.a = r.u8(); o.b = r.u8(); o.c = r.u8();
         p.ops.push_back(o); n++;
     }
     return p;
 }
 
 static const char *opn[] = {"new sp(h)", "sp<<h", "sp<<sp", "sp=move(sp)", "move-construct", "pop", "clear", "destroy", "co_await sp", "burst",
-                            "typed round-trip", "typed co_await"};
+                            "typed round-trip", "typed co_await", "co_await sp that also carries the awaiting coroutine (self)"};
 inline std::string describe(const Prog &p) {
     hz::Desc d;
     d << (p.coro_mode ? "coroutine mode" : "normal mode") << ", " << (unsigned)p.ops.size() << " ops:";
@@ -64,6 +65,7 @@ struct Run {
     std::vector<std::unique_ptr<cocls::suspend_point<void>>> pool;
     bool coro_mode = false;
     unsigned pending_checks = 0;
+    unsigned self_awaits = 0; int driver_epoch = 0;
 
     std::coroutine_handle<> H(int id) { return tasks[id].h; }
     int id_of(std::coroutine_handle<> h) { for (int i = 0; i < (int)tasks.size(); i++) if (tasks[i].h.address() == h.address()) return i; return -1; }
@@ -167,6 +169,23 @@ inline cocls::async<void> driver(Run &R, const Prog &p) {
     for (size_t i = 0; i < p.ops.size(); i++) {
         Op o = p.ops[i];
         size_t n = R.pool.size();
+        if (o.code == 12 && n) {
+            // the awaited suspend point contains the awaiting coroutine's own handle (cocls::self) among others:
+            // everybody - the awaiting coroutine included - is resumed exactly once
+            size_t k = o.a % n;
+            cocls::suspend_point<void> me = co_await cocls::self();
+            cocls::suspend_point<void> t;
+            if (o.b & 1) { t << std::move(me); t << std::move(*R.pool[k]); }
+            else { t << std::move(*R.pool[k]); t << std::move(me); }
+            for (unsigned e = 0; e < (unsigned)(o.c % 4); e++) { int id = R.take_handle(0); if (id < 0) break; t << R.H(id); R.m.expected[id]++; }
+            R.release_all(k);
+            R.self_awaits++;
+            int epoch = ++R.driver_epoch;
+            co_await std::move(t);
+            HZ_CHECK(epoch == R.driver_epoch, "the awaiting coroutine was resumed a second time from an earlier co_await (its own handle was queued twice)");
+            // (if the awaiting coroutine's own handle happened to be the one popped for the direct transfer it continues
+            //  at once and the others are still queued: their counts are checked at the next suspension / final pause)
+        } else
         if ((o.code == 8 || o.code == 11) && n) {
             size_t k = o.a % n;
             bool carried = !R.m.sp[k].empty();
@@ -207,7 +226,7 @@ inline void run(hz::Reader &r) {
             HZ_CHECK(f.ready(), "driver coroutine did not finish");
         } else {
             for (auto o : p.ops) {
-                if (o.code == 8 || o.code == 11) o.code = 6;
+                if (o.code == 8 || o.code == 11 || o.code == 12) o.code = 6;
                 apply(R, o);
                 R.check_sizes(opn[o.code]);
                 R.check_counts(opn[o.code]);      // normal mode: released coroutines run immediately
